@@ -354,17 +354,24 @@ func (l pyList) IsTruthy() bool {
 	return len(l) > 0
 }
 
+// concat returns a new list holding the items of l followed by those of l2. It never writes into spare
+// capacity of l's storage, which other lists (e.g. one that l is a slice of) may share.
+func (l pyList) concat(l2 pyList) pyList {
+	ret := make(pyList, 0, len(l)+len(l2))
+	return append(append(ret, l...), l2...)
+}
+
 func (l pyList) Operator(operator Operator, operand pyObject) pyObject {
 	switch operator {
 	case Add:
 		l2, ok := operand.(pyList)
 		if !ok {
 			if l2, ok := operand.(pyFrozenList); ok {
-				return slices.Clip(append(l, l2.pyList...))
+				return l.concat(l2.pyList)
 			}
 			panic("Cannot add list and " + operand.Type())
 		}
-		return slices.Clip(append(l, l2...))
+		return l.concat(l2)
 	case In, NotIn:
 		for _, item := range l {
 			if item == operand {
